@@ -382,10 +382,16 @@ func coordinator(prop, tier string) int {
 			}
 		}
 	}
-	os.MkdirAll("/verif/replays", 0o755)
+	replayDir := "/verif/replays"
+	evidenceDir := "/verif/evidence"
+	if d := os.Getenv("VERIF_EVIDENCE_DIR"); d != "" {
+		evidenceDir = d
+		replayDir = d
+	}
+	os.MkdirAll(replayDir, 0o755)
 	for _, nv := range newV {
 		h := sha1.Sum([]byte(nv.v.Key))
-		path := fmt.Sprintf("/verif/replays/%s-%x.json", prop, h[:6])
+		path := fmt.Sprintf("%s/%s-%x.json", replayDir, prop, h[:6])
 		art := map[string]any{"property": prop, "tier": tier, "unit": nv.unit, "key": nv.v.Key, "detail": nv.v.Detail,
 			"schedule": nv.v.Schedule, "trace": nv.v.Trace}
 		b, _ := json.MarshalIndent(art, "", " ")
@@ -417,9 +423,9 @@ func coordinator(prop, tier string) int {
 		"property_id": prop, "tier": tier, "seed": seed, "level": pc.Level, "coverage": cov,
 		"assumptions": pc.Assumptions, "wall_s": wall, "violations": len(newV),
 	}
-	os.MkdirAll("/verif/evidence", 0o755)
+	os.MkdirAll(evidenceDir, 0o755)
 	b, _ := json.MarshalIndent(ev, "", " ")
-	if err := os.WriteFile(filepath.Join("/verif/evidence", prop+".json"), b, 0o644); err != nil {
+	if err := os.WriteFile(filepath.Join(evidenceDir, prop+".json"), b, 0o644); err != nil {
 		fmt.Fprintln(os.Stderr, "cannot write evidence:", err)
 		return 2
 	}
